@@ -379,9 +379,9 @@ struct OpWeights {
 fn op_weights(prop: &str, subkeys: bool) -> OpWeights {
     let mut w = match prop {
         "C08" => OpWeights { exec: 12, mixed: 1, covered: 3, freeze: 0, upd: 1, incr: 8, decr: 3, perm: 1, adv: 5, regrant: 3 },
-        "C17" => OpWeights { exec: 3, mixed: 0, covered: 1, freeze: 1, upd: 9, incr: 3, decr: 2, perm: 3, adv: 1, regrant: 0 },
+        "C17" => OpWeights { exec: 3, mixed: 0, covered: 1, freeze: 1, upd: 9, incr: 3, decr: 2, perm: 3, adv: 1, regrant: 2 },
         // C07, C16
-        _ => OpWeights { exec: 8, mixed: 5, covered: 4, freeze: 1, upd: 2, incr: 7, decr: 2, perm: 4, adv: 3, regrant: 0 },
+        _ => OpWeights { exec: 8, mixed: 5, covered: 4, freeze: 1, upd: 2, incr: 7, decr: 2, perm: 4, adv: 3, regrant: 1 },
     };
     if !subkeys {
         w.incr = 0;
@@ -432,13 +432,16 @@ fn op_group(prop: &str, subkeys: bool) -> BoxedStrategy<Vec<Op>> {
         (w.perm, one((admin_who(), sp(), perm_bits()).prop_map(|(by, spender, perm)| Op::SetPermissions { by, spender, perm }).boxed())),
         (w.adv, one((0u8..4, 0u16..40).prop_map(|(blocks, secs)| Op::Advance { blocks, secs }).boxed())),
         (1, one((0u8..4).prop_map(|from| Op::Upgrade { from }).boxed())),
-        (w.regrant, (any::<u16>(), (0u8..3).prop_map(Den::Ix), 1u128..500, prop_oneof![(1i32..4).prop_map(ExpSpec::Height), (1i64..15).prop_map(ExpSpec::Time)], 0u8..4, proptest::collection::vec(msg_spec(MsgWeights { send: 1, burn: 0, staking: 0, distr: 0, other: 0 }), 1..=2), 1u128..500, exp_spec())
-            .prop_map(|(s, denom, g1, e1, adv, msgs, g2, e2)| {
+        (w.regrant, (any::<u16>(), (0u8..3).prop_map(Den::Ix), 1u128..500, prop_oneof![(1i32..4).prop_map(ExpSpec::Height), (1i64..15).prop_map(ExpSpec::Time)], 0u8..4, proptest::collection::vec(msg_spec(MsgWeights { send: 1, burn: 0, staking: 0, distr: 0, other: 0 }), 1..=2), 1u128..500, proptest::option::weighted(0.7, exp_spec()), 0u8..N_SENDERS as u8)
+            .prop_map(|(s, denom, g1, e1, adv, msgs, g2, e2, other)| {
                 vec![
                     Op::Increase { by: Who::Admin(0), spender: Sp::NonAdmin(s), denom: denom.clone(), amt: Amt::Abs(g1), exp: Some(e1) },
                     Op::Advance { blocks: adv, secs: adv as u16 * 5 },
                     Op::Execute { by: Who::NonAdmin(s), msgs, funds: vec![] },
-                    Op::Increase { by: Who::Admin(0), spender: Sp::NonAdmin(s), denom, amt: Amt::Abs(g2), exp: Some(e2) },
+                    // somebody relays nothing (always accepted), then the admin tops the subkey up again - with
+                    // a new deadline, or without one (refused if the allowance has run out in the meantime)
+                    Op::Execute { by: Who::Actor(other), msgs: vec![], funds: vec![] },
+                    Op::Increase { by: Who::Admin(0), spender: Sp::NonAdmin(s), denom, amt: Amt::Abs(g2), exp: e2 },
                 ]
             })
             .boxed()),
@@ -1099,6 +1102,17 @@ pub fn run_case(prop: &str, case: &Case, ctx: &mut CaseCtx) -> Result<(), Violat
             return Err(v(prop, "failed-call-changed-state", format!("{at}: harness rollback broken?")));
         }
 
+        // an allowance that ran out stays dead until an admin gives it a new deadline: a top-up without
+        // `expires` is refused (SettingExpiredAllowance). If it goes through, the deadline the admins had set
+        // was lifted by something other than an admin's grant (the stored entry was altered or dropped).
+        if ok && matches!(prop, "C07" | "C08" | "C17") {
+            if let (Call::Increase { exp: None, .. }, Some(x)) = (&step.call, step.target) {
+                if t.expired_now.contains(&x) {
+                    return Err(v(prop, "grant-revived-expired-allowance", format!("{at}: the allowance of sender{x} had expired and no admin call changed it since, yet an IncreaseAllowance without `expires` was accepted (allowance now {:?})", post.allow[x])));
+                }
+            }
+        }
+
         match prop {
             "C07" => check_c07(&w, &step, res.as_ref().ok(), &pre, &post, &at, ctx)?,
             "C08" => check_c08(&w, &step, ok, &pre, &post, &at, ctx, &mut t)?,
@@ -1220,6 +1234,13 @@ fn check_update_admins_applied(prop: &str, s: &Step, ok: bool, post: &Obs, at: &
     if let (true, Call::UpdateAdmins(list)) = (ok, &s.call) {
         if post.admins != *list {
             return Err(v(prop, "update-admins-not-applied", format!("{at}: UpdateAdmins({:?}) succeeded but AdminList reports {:?}", list, post.admins)));
+        }
+    }
+    // likewise a successful SetPermissions leaves exactly the submitted flags on record (whatever other
+    // roles the address holds): later authorisation decisions are made from them
+    if let (true, Call::SetPermissions { perm, .. }, Some(x)) = (ok, &s.call, s.target) {
+        if post.perms[x] != *perm {
+            return Err(v(prop, "set-permissions-not-applied", format!("{at}: SetPermissions({:?}) succeeded but Permissions of sender{x} reports {:?}", perm, post.perms[x])));
         }
     }
     Ok(())
@@ -1782,12 +1803,14 @@ fn d_group(u: &mut arbitrary::Unstructured, prop: &str, subkeys: bool) -> Vec<Op
             let n = 1 + arb_below(u, 2);
             let msgs = (0..n).map(|_| MsgSpec::Send { to: d_addr(u), coins: d_coins(u, 3) }).collect();
             let g2 = 1 + u.arbitrary::<u16>().unwrap_or(0) as u128 % 499;
-            let e2 = d_exp(u);
+            let e2 = if arb_bool(u, 7, 10) { Some(d_exp(u)) } else { None };
+            let other = arb_below(u, N_SENDERS) as u8;
             return vec![
                 Op::Increase { by: Who::Admin(0), spender: Sp::NonAdmin(s), denom: denom.clone(), amt: Amt::Abs(g1), exp: Some(e1) },
                 Op::Advance { blocks: adv, secs: adv as u16 * 5 },
                 Op::Execute { by: Who::NonAdmin(s), msgs, funds: vec![] },
-                Op::Increase { by: Who::Admin(0), spender: Sp::NonAdmin(s), denom, amt: Amt::Abs(g2), exp: Some(e2) },
+                Op::Execute { by: Who::Actor(other), msgs: vec![], funds: vec![] },
+                Op::Increase { by: Who::Admin(0), spender: Sp::NonAdmin(s), denom, amt: Amt::Abs(g2), exp: e2 },
             ];
         }
     };
